@@ -166,6 +166,39 @@ def g_c2(bounds, n2, n1, tpi2, tpi1, T, ix, o):
             f"[{'; '.join(gidx(i) for i in ix)}] {gobs(o)})")
 
 
+INAME = {"linear": "ILinear", "quadratic": "IQuadratic", "bi_linear": "IBilinear"}
+STY = {"i2": "SI16", "i4": "SI32", "i8": "SI64", "f4": "SF32", "f8": "SF64"}
+
+
+def gsnum(x, dtype):
+    """a stored tie point: an integer, or m * 2^e"""
+    x = Fr(x)
+    if dtype[0] == "i":
+        assert x.denominator == 1
+        return f"(NInt {lib.gz(x.numerator)})"
+    e = -(x.denominator.bit_length() - 1)
+    assert x.denominator == 1 << -e, x
+    return f"(NFlt {lib.gz(x.numerator)} {lib.gz(e)})"
+
+
+def g_c3(c, pi, o):
+    """A whole array in canonical layout with its constructor arguments, the
+    dictionaries in the insertion order that was used."""
+    tp, dt = c["tp"], c["tp_dtype"]
+    if len(tp.shape) == 1:
+        gtp = "(TP1 [" + "; ".join(gsnum(x, dt) for x in tp.tolist()) + "])"
+    else:
+        gtp = "(TP2 [" + "; ".join("[" + "; ".join(gsnum(x, dt) for x in r) + "]" for r in tp.tolist()) + "])"
+    cshape = c["shape"][:-1] if c["bounds"] else c["shape"]
+    tpis = "[" + "; ".join(f"({gnat(d)}, {gnl(c['tpi'][d])})" for d in c["tpi_order"]) + "]"
+    pv = {"w": c["w"], "zz": c.get("zz")}
+    params = "[" + "; ".join(f"({lib.gstr(k)}, {gql(pv[k])})" for k in c["param_order"] if pv.get(k) is not None) + "]"
+    pdims = "[" + "; ".join(f"({lib.gstr(k)}, {gnl([c['wdim']])})" for k in c["pdim_order"] if pv.get(k) is not None) + "]"
+    prec = "None" if c.get("comp_prec") is None else f"(Some {lib.gstr(c['comp_prec'])})"
+    return (f"(C3 {INAME[c['name']]} {gbool(c['bounds'])} {gnl(cshape)} {STY[dt]} {gtp} {tpis} {params} {pdims} {prec} "
+            f"[{'; '.join(gidx(i) for i in pi)}] {gobs(o)})")
+
+
 # ---------------------------------------------------------------------------
 # index handling (what Data._parse_indices hands to SubsampledArray.__getitem__)
 # ---------------------------------------------------------------------------
@@ -217,7 +250,7 @@ def rand_index(rng, n, neg_step=True):
 # ---------------------------------------------------------------------------
 # generators
 # ---------------------------------------------------------------------------
-def gen_tpi(rng, mode, orphan_p=0.0, max_areas=3, max_sub=3):
+def gen_tpi(rng, mode, orphan_p=0.0, max_areas=3, max_sub=3, bounds_cells=False):
     """A tie point index vector: continuous areas separated by adjacent
     indices, each area a chain of subareas.  mode 'coords': every gap a power
     of two (exact float arithmetic for coordinates); 'bounds': every subarea's
@@ -235,6 +268,10 @@ def gen_tpi(rng, mode, orphan_p=0.0, max_areas=3, max_sub=3):
                 gap = rng.choice([2, 2, 4, 4, 8, 16])
             elif mode == "bounds":
                 gap = rng.choice([3, 3, 7, 15]) if s == 0 else rng.choice([2, 2, 4, 8])
+            elif mode == "nondyadic":  # 3, 5, 6 or 7 intervals (cells for bounds): s = k/n is not a binary fraction
+                n = rng.choice([3, 3, 5, 6, 7])
+                gap = n if not bounds_cells else (n - 1 if s == 0 else n)
+                gap = max(gap, 2)
             else:
                 gap = rng.choice([2, 3, 3, 5, 6, 7, 9, 10, 11])
             tpi.append(tpi[-1] + gap)
@@ -260,6 +297,39 @@ def rand_vals(rng, shape):
     return a.reshape(shape)
 
 
+DTYPES = ["f8", "f8", "f8", "f4", "f4", "f4", "i2", "i4", "i8"]
+
+
+def rand_stored(rng, shape, dtype):
+    """Tie point values exactly representable in the storage type.  f4: full
+    24-bit significands over 14 binades (differences are not float32 numbers);
+    i2 / i4: the whole range (differences overflow the type); every value and
+    every difference is exact in float64."""
+    if dtype == "f8":
+        return rand_vals(rng, shape)
+    size = int(np.prod(shape))
+    style = rng.random()
+    v = []
+    for _ in range(size):
+        if dtype == "f4":
+            if style < 0.7:
+                m = rng.randrange(1 << 23, 1 << 24) * rng.choice([-1, 1])
+                x = Fr(m, 1 << rng.randint(14, 28))
+            else:
+                x = Fr(rng.randint(-4000, 4000), 4)
+        elif dtype == "i2":
+            x = Fr(rng.choice([-32768, 32767, rng.randint(-32768, 32767), rng.randint(-32768, 32767), rng.randint(-100, 100)]))
+        elif dtype == "i4":
+            x = Fr(rng.choice([-2 ** 31, 2 ** 31 - 1, rng.randint(-2 ** 31, 2 ** 31 - 1), rng.randint(-2 ** 31, 2 ** 31 - 1),
+                               rng.randint(-1000, 1000)]))
+        else:
+            x = Fr(rng.randint(-2 ** 40, 2 ** 40))
+        v.append(x)
+    a = np.empty(size, dtype=object)
+    a[:] = v
+    return a.reshape(shape)
+
+
 def tolist_f(a):
     return np.vectorize(float, otypes=[object])(a).tolist() if a.size else []
 
@@ -277,7 +347,7 @@ def gen_arr_case(rng, fam):
     for d in range(ndim):
         if d in sdims:
             t = gen_tpi(rng, mode, orphan_p=fam.get("orphan_p", 0.0),
-                        max_areas=2 if nsd == 2 else 3, max_sub=2 if nsd == 2 else 3)
+                        max_areas=2 if nsd == 2 else 3, max_sub=2 if nsd == 2 else 3, bounds_cells=bounds)
             tpi[d] = t
             tp_shape.append(len(t))
             shape.append(t[-1] + 1)
@@ -287,15 +357,29 @@ def gen_arr_case(rng, fam):
             shape.append(e)
     if bounds:
         shape.append(NV[nsd])
-    tp = rand_vals(rng, tp_shape)
-    w = None
+    dtype = rng.choice(fam.get("dtypes", DTYPES))
+    tp = rand_stored(rng, tp_shape, dtype)
+    w = zz = None
     if name == "quadratic" and fam.get("w", True):
         nz = len(zones(tpi[sdims[0]]))
         w = [Fr(rng.randint(-64, 64), 2) for _ in range(nz)] if nz else None
+        if w is not None and rng.random() < 0.5:
+            zz = [Fr(rng.randint(-9, 9)) for _ in range(nz)]  # a parameter the method does not use
+    # insertion order of every dictionary argument of SubsampledArray
+    tpi_order = list(sdims)
+    rng.shuffle(tpi_order)
+    param_order = ["w", "zz"]
+    rng.shuffle(param_order)
+    pdim_order = ["w", "zz"]
+    rng.shuffle(pdim_order)
     case = {"kind": "arr", "fam": fam["tag"], "name": name, "bounds": bounds, "sdims": sdims,
-            "tp": tp, "tpi": tpi, "shape": shape, "w": w, "wdim": sdims[0], "exact": mode != "general",
-            "tp_dtype": "f8"}
+            "tp": tp, "tpi": tpi, "shape": shape, "w": w, "zz": zz, "wdim": sdims[0],
+            "exact": mode not in ("general", "nondyadic"),
+            "tp_dtype": dtype, "w_dtype": rng.choice(["f8", "f4"]), "comp_prec": rng.choice([None, "32", "64"]),
+            "tpi_order": tpi_order, "param_order": param_order, "pdim_order": pdim_order}
     ops = [{"op": "array"}, {"op": "first"}, {"op": "last"}]
+    if rng.random() < 0.3:
+        ops.append({"op": "copy_array"})
     nd = len(shape)
     ops.append({"op": "getitem", "index": [0] * nd})
     ops.append({"op": "getitem", "index": [{"s": [-1, None, 1]}] * nd})
@@ -328,7 +412,7 @@ def mal_case(rng):
     exact = all(b - a <= 1 or (b - a) & (b - a - 1) == 0 for a, b in zip(t[:-1], t[1:]))
     return {"kind": "arr", "fam": "malformed-" + kind, "name": "linear", "bounds": False, "sdims": [0],
             "tp": tp, "tpi": {0: t}, "shape": [max(n, 1)], "w": None, "wdim": 0, "exact": exact,
-            "tp_dtype": "f8", "malformed": True,
+            "tp_dtype": "f8", "malformed": True, "tpi_order": [0], "param_order": [], "pdim_order": [],
             "ops": [{"op": "array"}]}
 
 
@@ -336,7 +420,8 @@ def gen_file_case(rng, k):
     """A hand-encoded CF-netCDF file with subsampled coordinates."""
     two = rng.random() < 0.4
     has_bounds = rng.random() < 0.6
-    mode = rng.choice(["coords", "bounds"]) if has_bounds else "coords"
+    mode = rng.choice(["coords", "bounds", "nondyadic"]) if has_bounds else rng.choice(["coords", "coords", "nondyadic"])
+    fdtype = rng.choice(["f8", "f4", "f4"])  # tie points in files are usually 32-bit floats
     dims, tpi = [], {}
     names = ["track", "scan"] if two else ["track"]
     layout = list(names)
@@ -356,13 +441,13 @@ def gen_file_case(rng, k):
     for nm, sn, un in ([("lat", "latitude", "degrees_north"), ("lon", "longitude", "degrees_east")] if two
                        else [("lat", "latitude", "degrees_north")]):
         shp = [tp_shape[i] for i in axes]
-        coords.append({"ncvar": nm, "standard_name": sn, "units": un, "axes": axes,
-                       "tp": rand_vals(rng, shp), "btp": rand_vals(rng, shp) if has_bounds else None})
+        coords.append({"ncvar": nm, "standard_name": sn, "units": un, "axes": axes, "dtype": fdtype,
+                       "tp": rand_stored(rng, shp, fdtype), "btp": rand_stored(rng, shp, fdtype) if has_bounds else None})
     ushape = [dims[i][1] for i in axes]
     ops = [{"op": "array", "on": "c"}, {"op": "array", "on": "b"}]
     # (a reversing subspace of a 1-d construct also swaps its bounds: outside this property)
     cops = [{"index": [rand_index(rng, n, neg_step=False) for n in ushape]} for _ in range(2)]
-    return {"kind": "file", "fam": "file-" + ("bi_linear" if two else "linear") + ("-bounds" if has_bounds else ""),
+    return {"kind": "file", "fam": "file-" + ("bi_linear" if two else "linear") + ("-bounds" if has_bounds else "") + "-" + fdtype,
             "name": "bi_linear" if two else "linear", "dims": dims, "tpi": tpi, "coords": coords, "axes": axes,
             "mode": mode, "ops": ops, "cops": cops}
 
@@ -384,6 +469,19 @@ FAMILIES = [
     {"tag": "one-point-area", "name": "linear", "bounds": False, "extra": 0, "weight": 1, "orphan_p": 0.5},
     {"tag": "one-point-area-bounds", "name": "linear", "bounds": True, "extra": 0, "weight": 1, "orphan_p": 0.5},
     {"tag": "one-point-area-2d", "name": "bi_linear", "bounds": False, "extra": 0, "weight": 1, "orphan_p": 0.4},
+    # subarea sizes for which s = k/n is not a binary fraction: float64 rounding, compared to 2^-46 * scale
+    {"tag": "nondyadic-linear", "name": "linear", "bounds": False, "extra": 0, "weight": 3, "mode": "nondyadic",
+     "dtypes": ["f4", "f4", "i2", "f8", "i4", "i8"]},
+    {"tag": "nondyadic-linear-bounds", "name": "linear", "bounds": True, "extra": 0, "weight": 2, "mode": "nondyadic",
+     "dtypes": ["f4", "f4", "i2", "f8", "i4", "i8"]},
+    {"tag": "nondyadic-quadratic", "name": "quadratic", "bounds": False, "extra": 0, "weight": 2, "mode": "nondyadic",
+     "dtypes": ["f4", "f4", "i2", "f8", "i4", "i8"]},
+    {"tag": "nondyadic-bi_linear", "name": "bi_linear", "bounds": False, "extra": 0, "weight": 2, "mode": "nondyadic",
+     "dtypes": ["f4", "f4", "i2", "f8", "i4", "i8"]},
+    {"tag": "nondyadic-bi_linear-bounds", "name": "bi_linear", "bounds": True, "extra": 0, "weight": 1, "mode": "nondyadic",
+     "dtypes": ["f4", "f4", "i2", "f8", "i4", "i8"]},
+    {"tag": "nondyadic-linear-extra", "name": "linear", "bounds": False, "extra": 1, "weight": 1, "mode": "nondyadic",
+     "dtypes": ["f4", "f4", "i2", "f8", "i4", "i8"]},
     {"tag": "general-lengths", "name": "linear", "bounds": False, "extra": 0, "weight": 1, "mode": "general"},
     {"tag": "general-lengths-bounds", "name": "linear", "bounds": True, "extra": 0, "weight": 1, "mode": "general"},
     {"tag": "general-lengths-2d", "name": "bi_linear", "bounds": False, "extra": 0, "weight": 1, "mode": "general"},
@@ -400,6 +498,18 @@ CORPUS = [
     # F16c: last element of bi_linear bounds is vertex 3 of the last cell, not the last bounds tie point
     {"tag": "corpus-F16c", "name": "bi_linear", "bounds": True, "tpi": {0: [0, 3], 1: [0, 3, 7]},
      "tp": [[0, 64, 128], [1024, 2048, 4096]]},
+    # F16d: float32 tie points: ub - ua was formed in float32, tie points 1 and 2 came back inexact
+    {"tag": "corpus-F16d", "name": "linear", "bounds": False, "tpi": {0: [0, 4, 8]}, "dtype": "f4",
+     "tp": [float(np.float32(0.1)), float(np.float32(1000.7)), float(np.float32(3.3))]},
+    # F16d: int16 tie points: ub - ua wrapped around
+    {"tag": "corpus-F16d", "name": "linear", "bounds": False, "tpi": {0: [0, 4, 8]}, "dtype": "i2",
+     "tp": [-30000, 30000, 100]},
+    # seeded change (third pass): coefficient s in float32 for float32 tie points, 3 intervals
+    {"tag": "corpus-s32", "name": "linear", "bounds": False, "tpi": {0: [0, 3, 6]}, "dtype": "f4", "exact": False,
+     "tp": [float(np.float32(0.1)), float(np.float32(1000.7)), float(np.float32(3.3))]},
+    # seeded change (third pass): tie_point_indices given as {1: ..., 0: ...} swapped bounds vertices 1 and 3
+    {"tag": "corpus-dict-order", "name": "bi_linear", "bounds": True, "tpi": {0: [0, 3], 1: [0, 3, 7]},
+     "tp": [[0, 64, 128], [1024, 2048, 4096]], "tpi_order": [1, 0]},
 ]
 
 
@@ -412,19 +522,21 @@ def corpus_cases():
         shape = [c["tpi"][d][-1] + 1 for d in sd] + ([NV[len(sd)]] if c["bounds"] else [])
         nd = len(shape)
         out.append({"kind": "arr", "fam": c["tag"], "name": c["name"], "bounds": c["bounds"], "sdims": sd,
-                    "tp": tp, "tpi": dict(c["tpi"]), "shape": shape, "w": None, "wdim": 0, "exact": True,
-                    "tp_dtype": "f8",
-                    "ops": [{"op": "array"}, {"op": "first"}, {"op": "last"},
+                    "tp": tp, "tpi": dict(c["tpi"]), "shape": shape, "w": None, "zz": None, "wdim": 0,
+                    "exact": c.get("exact", True), "tp_dtype": c.get("dtype", "f8"), "w_dtype": "f8", "comp_prec": None,
+                    "tpi_order": c.get("tpi_order", sd), "param_order": [], "pdim_order": [],
+                    "ops": [{"op": "array"}, {"op": "copy_array"}, {"op": "first"}, {"op": "last"},
                             {"op": "getitem", "index": [0] * nd},
                             {"op": "getitem", "index": [{"s": [-1, None, 1]}] * nd}]})
     return out
 
 
 def to_payload(c):
-    d = {k: v for k, v in c.items() if k not in ("tp", "w", "coords", "tpi")}
+    d = {k: v for k, v in c.items() if k not in ("tp", "w", "zz", "coords", "tpi")}
     if c["kind"] == "arr":
         d["tp"] = tolist_f(c["tp"])
         d["w"] = None if c["w"] is None else [float(x) for x in c["w"]]
+        d["zz"] = None if c.get("zz") is None else [float(x) for x in c["zz"]]
         d["tpi"] = {str(k): v for k, v in c["tpi"].items()}
     else:
         d["tpi"] = c["tpi"]
@@ -452,6 +564,14 @@ def flat(a):
     return [x for x in a.ravel().tolist()] if isinstance(a, np.ndarray) else [a]
 
 
+# Where float64 arithmetic cannot be exact (s = k/n with n not a power of two) the
+# implementation must be within the rounding error of a float64 evaluation of the
+# Appendix J formula: at most 3 nested operations of <= 9 half-ulps each at the
+# magnitude of the largest operand, i.e. well inside 2^-46 * scale (64 ulp).  An
+# evaluation in (or through) float32 is off by ~2^-24 * scale.
+TOL = Fr(1, 2 ** 46)
+
+
 def diff_positions(exp, got_vals, shape, exact, scale):
     """indices (tuples) where the observed flat values differ from the expected array"""
     bad = []
@@ -462,7 +582,7 @@ def diff_positions(exp, got_vals, shape, exact, scale):
         elif exact:
             ok = e == g
         else:
-            ok = abs(e - g) <= scale * Fr(1, 10 ** 11)
+            ok = abs(e - g) <= scale * TOL
         if not ok:
             bad.append(tuple(int(x) for x in np.unravel_index(n, shape)) if shape else ())
     return bad
@@ -487,6 +607,9 @@ def classify(c, badpos, pos_lists=None):
             return False
         if all(in_orphan(p) for p in badpos):
             return "one-point-area"
+    if c["kind"] == "arr" and badpos and c.get("tp_dtype", "f8") in ("f4", "i2", "i4") and not any(orph.values()):
+        # F16d (repaired by handoff/C16-fix3-1.diff): arithmetic in the stored type of the tie points
+        return "arithmetic-in-stored-type"
     return None
 
 
@@ -499,7 +622,7 @@ def check_arr(chk, c, out, lits, stats):
     shape = c["shape"]
     tp = c["tp"]
     exact = c["exact"]
-    scale = max([abs(x) for x in flat(tp)] + [Fr(1)])
+    scale = max([abs(x) for x in flat(tp)] + [Fr(1)] + [4 * abs(x) for x in (c["w"] or [])])
     ref = reference(name, tp, c["tpi"], tuple(shape), bounds, c["w"], c["wdim"])
     desc = None
     explained = False
@@ -522,7 +645,7 @@ def check_arr(chk, c, out, lits, stats):
             explained = True
             continue
         oshape, ovals = o
-        if k == "array":
+        if k in ("array", "copy_array"):
             full = o
             if oshape != list(shape):
                 chk.fail("property", "shape", f"uncompressed shape {oshape}, expected {shape}",
@@ -539,7 +662,8 @@ def check_arr(chk, c, out, lits, stats):
                         u[d] = c["tpi"][d][kk[d]]
                     u = tuple(u)
                     n = int(np.ravel_multi_index(u, shape))
-                    if ovals[n] is None or (ovals[n] != tp[kk] if exact else abs(ovals[n] - tp[kk]) > scale * Fr(1, 10 ** 11)):
+                    # exact in every family: s is exactly 0 or 1 there and ub - ua is a float64 number
+                    if ovals[n] is None or ovals[n] != tp[kk]:
                         tie_bad.append(u)
             if tie_bad:
                 sig = classify(c, tie_bad) or "tie-point-not-reproduced"
@@ -581,7 +705,7 @@ def check_arr(chk, c, out, lits, stats):
             e = flat(ref)[0 if k == "first" else -1]
             g = ovals[0]
             okv = (e is None and g is None) or (e is not None and g is not None and
-                                                (e == g if exact else abs(e - g) <= scale * Fr(1, 10 ** 11)))
+                                                (e == g if exact else abs(e - g) <= scale * TOL))
             if not okv:
                 p = tuple(0 if k == "first" else n - 1 for n in shape)
                 sig = classify(c, [p]) or (k + "-element")
@@ -595,7 +719,7 @@ def check_arr(chk, c, out, lits, stats):
     nsd = len(sd)
     extra = [d for d in range(len(tp.shape)) if d not in sd]
     for op, r in zip(c["ops"], res):
-        if op["op"] not in ("array", "getitem"):
+        if op["op"] not in ("array", "getitem", "copy_array"):
             continue
         o = obs_fr(r)
         if extra:
@@ -619,11 +743,13 @@ def check_arr(chk, c, out, lits, stats):
                      [list(range(n)) for n in lshape], (lshape, flat(lu)), lshape)
                 stats["lanes"] += 1
         else:
-            if op["op"] == "array":
+            if op["op"] in ("array", "copy_array"):
                 pi = [list(range(n)) for n in shape]
             else:
                 pi = parse_index(op["index"], shape)
-            emit(lits, c, explained, name, bounds, nsd, tp, [c["tpi"][d] for d in sd], c["w"], pi, o, shape)
+            # the whole constructor call: stored type, dictionaries in insertion order
+            lits.append((g_c3(c, pi, o), c, explained))
+            stats["c3"] = stats.get("c3", 0) + 1
 
 
 def emit(lits, c, explained, name, bounds, nsd, tp, tpis, w, pi, o, shape):
@@ -789,14 +915,30 @@ def run(chk, model_ok):
         "file_arrays_compared": stats["file_arrays"],
         "malformed_outcomes": stats["malformed_outcomes"],
         "subarea_layouts": dict(sorted(nareas.items(), key=lambda kv: -kv[1])[:12]),
+        "tie_point_storage_types": {t: sum(1 for c, _ in done if c["kind"] == "arr" and c.get("tp_dtype") == t)
+                                    for t in ("f8", "f4", "i2", "i4", "i8")},
+        "non_dyadic_subarea_cases": sum(1 for c, _ in done if c["kind"] == "arr" and c["fam"].startswith("nondyadic")),
+        "cases_with_descending_tie_point_indices_dict": sum(
+            1 for c, _ in done if c["kind"] == "arr" and len(c.get("tpi_order", [])) == 2 and c["tpi_order"][0] > c["tpi_order"][1]),
+        "cases_with_two_interpolation_parameters": sum(1 for c, _ in done if c["kind"] == "arr" and c.get("zz") is not None),
+        "computational_precision_values": {str(v): sum(1 for c, _ in done if c["kind"] == "arr" and c.get("comp_prec") == v)
+                                           for v in (None, "32", "64")},
+        "whole_constructor_cases_checked_against_model": stats.get("c3", 0),
         "cases_with_one_point_area": sum(1 for c, _ in done if c["kind"] == "arr" and any(orphans(t) for t in c["tpi"].values())),
         "exhaustive": False,
         "historical_refutations": "C16/Refuted.v: the first/last-element shortcut on bounds tie points (F16b, F16c) as at the pinned commit",
     })
     chk.assumptions += [
-        "tie point values and interpolation parameters are exactly representable (multiples of 1/4, |v| <= 1000) and, in the exact "
-        "families, every subarea length (cell count for bounds) is a power of two, so that each float64 operation of the implementation "
-        "is exact and the rational model must agree bit-for-bit; general lengths are compared with the rational reference to 1e-11 relative",
+        "tie points are stored as f8, f4, i2, i4 or i8 (f4: full 24-bit significands over 14 binades; i2/i4: the whole range; "
+        "|i8| <= 2^40) and every stored value and every difference of two of them is a float64 number; in the exact families every "
+        "subarea length (cell count for bounds) is a power of two, so that each float64 operation of the implementation is exact and "
+        "the rational model must agree bit-for-bit; for other lengths (3, 5, 6, 7 intervals ...) the result must lie within "
+        "2^-46 x (largest |tie point|) of the exact rational Appendix J value - the error bound of a float64 evaluation; tie points "
+        "themselves must be reproduced exactly in every family",
+        "the stated precision is float64 (SubsampledArray.dtype); computational_precision ('32' / '64' / unset) is carried as a case "
+        "dimension and must not change the result (CF 8.3.8: the arithmetic precision should match or exceed it)",
+        "every dictionary argument of SubsampledArray (tie_point_indices, parameters, parameter_dimensions) is built in a random "
+        "insertion order; dependent_tie_points only occur in the trigonometric methods, which are not modelled",
         "extra non-interpolated dimensions are compared with the Coq model lane by lane (each lane a 1-d or 2-d case); the full "
         "n-d arrays are compared with the independent Python reference",
         "bounds follow cfdm's reading of CF 8.3.9: a subarea that starts a continuous area covers cells ia..ib, any other ia+1..ib, "
